@@ -6,12 +6,14 @@
 //!   faults.image <bits 1|8|16> <w> <h> <sub 0|1|2> <adapter> <native>
 //!
 //! adapter: 0 none, 1 clipped, 2 translated, 3 cropped, 4 clipped(translated), 5 translated(cropped(clipped)),
-//!          6 color_converted (text/1-bpp images only: BinaryColor drawable on an Rgb565 target)
+//!          6 color_converted on the bare target (text only: BinaryColor text on an Rgb565 target)
+//! Images with 1 or 8 bits per pixel (BinaryColor / Gray8) are always drawn through `color_converted()`
+//! stacked ON TOP of the adapter stack 0..5 given in the op; 16-bpp images (Rgb565) through the stack alone.
 //!
 //! For each op: the fault-free run on the recording target gives n calls and a call log; then for
-//! every k < n (all k when n <= 48, else the first 16, the last 16 and 16 spread ones) the run in
-//! which the k-th call of the underlying target fails must (a) return exactly that error value
-//! `TErr(k)`, (b) make no further call, (c) have made exactly the first k calls of the fault-free log.
+//! EVERY k < n (no sampling, in both tiers) the run in which the k-th call of the underlying target
+//! fails must (a) return exactly that error value `TErr(k)`, (b) make no further call, (c) have made
+//! exactly the first k calls of the fault-free log.
 use crate::common::*;
 use crate::shapes::*;
 use crate::with_shape;
@@ -74,16 +76,9 @@ macro_rules! fault_runs {
         let (r0, rec0) = run(None);
         $ctx.expect(r0.is_ok(), &format!("C04:fault-free-run-fails:{}", $kind), || format!("{:?}", r0));
         let n = rec0.calls;
-        let ks: Vec<usize> = if n <= 48 {
-            (0..n).collect()
-        } else {
-            let mut v: Vec<usize> = (0..16).collect();
-            v.extend(n - 16..n);
-            v.extend((1..=16).map(|i| 16 + i * (n - 32) / 17));
-            v.sort();
-            v.dedup();
-            v
-        };
+        // every k: the generators keep n small (largest fault-free run: 85 calls in the quick tier,
+        // see the `calls:*` counters), so the quadratic cost is negligible
+        let ks: Vec<usize> = (0..n).collect();
         for &k in &ks {
             let (r, rec) = run(Some(k));
             $ctx.expect(r == Err(TErr(k)), &format!("C04:error-not-returned:{}", $kind), || format!("call {} of {} failed with TErr({}), draw returned {:?}", k, n, k, r));
@@ -103,9 +98,11 @@ impl Module for M {
         "faults"
     }
     fn rule(&self) -> &'static str {
-        "every styled primitive kind (grid of sizes/styles), text (3 fonts, colour/decoration masks, alignments, multi-line) and images/sub-images, \
-         each through 6-7 adapter stacks on a draw_iter-only and a native-fill recording target; for each, the k-th underlying call is failed for every k \
-         (all k when the fault-free run makes <= 48 calls, else 48 selected). Non-trivial: the fault-free run makes at least 2 calls; distinct = op text."
+        "every styled primitive kind (grid of sizes/styles), text (3 built-in fonts + one custom font with character spacing, colour/decoration masks, \
+         alignments, multi-line) and 1/8/16-bpp images/sub-images, each through 6 adapter stacks (none, clipped, translated, cropped, clipped(translated), \
+         translated(cropped(clipped)); 1/8-bpp images additionally through color_converted on top of each stack, text also through color_converted alone) \
+         on a draw_iter-only and a native-fill recording target; for each op the k-th underlying call is failed for EVERY k < n (n = calls of the \
+         fault-free run; no sampling in either tier). Non-trivial: the fault-free run makes at least 2 calls; distinct = op text."
     }
 
     fn generate(&self, _pid: &str, tier: Tier, rng: &mut Rng, emit: &mut dyn FnMut(String)) {
@@ -156,11 +153,9 @@ impl Module for M {
         for bits in [1, 8, 16] {
             for (w, h) in [(0, 0), (1, 1), (5, 3), (8, 2), (9, 4)] {
                 for sub in 0..3 {
-                    for adapter in 0..7 {
+                    // 1/8-bpp images go through color_converted on top of the stack, so stack 6 would repeat stack 0
+                    for adapter in 0..6 {
                         for native in 0..2 {
-                            if adapter == 6 && bits != 1 {
-                                continue;
-                            }
                             emit(format!("faults.image {} {} {} {} {} {}", bits, w, h, sub, adapter, native));
                         }
                     }
@@ -262,22 +257,21 @@ impl Module for M {
                 let data: Vec<u8> = (0..bpr * size.height as usize).map(|i| (i * 37 + 11) as u8).collect();
                 let a1 = Rectangle::new(Point::new(1, 0), Size::new(3, 2));
                 let a2 = Rectangle::new(Point::new(1, 1), Size::new(4, 4));
+                // adapter 6 (older corpus lines) = color_converted on the bare target = stack 0 for these images
+                let stack = if adapter == 6 { 0 } else { adapter };
                 macro_rules! go {
-                    ($c:ty, $conv:expr) => {{
+                    ($c:ty) => {{
                         let raw = ImageRaw::<$c>::new(&data, size).unwrap();
                         let s1 = raw.sub_image(&a1);
                         let s2 = s1.sub_image(&a2);
                         macro_rules! with_img {
                             ($im:expr) => {{
                                 let im = $im;
-                                if $conv {
-                                    if native {
-                                        fault_runs!(ctx, "image", R2, 0, d => im.draw(&mut d.color_converted()))
-                                    } else {
-                                        fault_runs!(ctx, "image", R1, 0, d => im.draw(&mut d.color_converted()))
-                                    }
+                                // colour conversion on top of the adapter stack named in the op
+                                if native {
+                                    fault_runs!(ctx, "image", R2, stack, d => im.draw(&mut d.color_converted()))
                                 } else {
-                                    unreachable!()
+                                    fault_runs!(ctx, "image", R1, stack, d => im.draw(&mut d.color_converted()))
                                 }
                             }};
                         }
@@ -297,9 +291,9 @@ impl Module for M {
                             ($im:expr) => {{
                                 let im = $im;
                                 if native {
-                                    fault_runs!(ctx, "image", R2, adapter, d => im.draw(d))
+                                    fault_runs!(ctx, "image", R2, stack, d => im.draw(d))
                                 } else {
-                                    fault_runs!(ctx, "image", R1, adapter, d => im.draw(d))
+                                    fault_runs!(ctx, "image", R1, stack, d => im.draw(d))
                                 }
                             }};
                         }
@@ -311,8 +305,8 @@ impl Module for M {
                     }};
                 }
                 match bits {
-                    1 => go!(BinaryColor, true),
-                    8 => go!(Gray8, true),
+                    1 => go!(BinaryColor),
+                    8 => go!(Gray8),
                     _ => go_rgb!(),
                 }
             }
@@ -327,7 +321,8 @@ impl Module for M {
             1 => "calls:1",
             2..=8 => "calls:2-8",
             9..=48 => "calls:9-48",
-            _ => "calls:49+",
+            49..=128 => "calls:49-128",
+            _ => "calls:129+",
         });
         format!("n={} tested={}", out.n, out.tested)
     }
